@@ -163,7 +163,7 @@ func productFor(base *sim.Scenario, name string, full bool, g *prng.R, emit func
 func productCorpus(seed int64) []corpusEntry {
 	var out []corpusEntry
 	for _, ce := range corpus() {
-		if strings.Contains(ce.Name, "Send") || ce.Name == "inbox.duplicate" || ce.Name == "get.handler" || strings.Contains(ce.Name, "social-only") || strings.Contains(ce.Name, "federating-only") {
+		if strings.Contains(ce.Name, "Send") || ce.Name == "inbox.duplicate" || ce.Name == "get.handler" || strings.Contains(ce.Name, "social-only") || strings.Contains(ce.Name, "federating-only") || strings.HasSuffix(ce.Name, ".repeated-values") {
 			continue
 		}
 		out = append(out, ce)
